@@ -709,7 +709,8 @@ def run(tier, seed):
     lap("coq-eval")
     chk.extra["phase_wall_s"] = phase
     chk.extra["cases_evaluated_in_coq"] = {b[0]: len(b[3]) for b in batches}
-    chk.extra["programs"] = {"exhaustive_small": n + 1, "random": nrand}
+    chk.extra["program_counts"] = {"exhaustive_small": n + 1, "random": nrand}
+    chk.extra["programs"] = n + 1 + nrand
     del keep
     chk.assumptions = [
         "the page's visible text identifies component instances ([[i]] written by each generated template, [[D]] in front of each {% component \"dynamic\" %} tag); "
